@@ -283,7 +283,9 @@ func callScript(h util.Uint160, method string, args ...any) []byte {
 	return w.Bytes()
 }
 
-var kKeys = [][]byte{{0x01}, {0x01, 0x02}, {0x01, 0x02, 0x03}, {0x02}, {0xff}, {0xff, 0xff}, {0x00}, {}, {0x01, 0x02, 0x01}, {0x01, 0x02, 0x00, 0xff}}
+// (selectors are taken modulo the length from 0..15: the first six keys have double weight - a stored key with deeper
+// siblings below it, some smaller and some larger than its own last byte)
+var kKeys = [][]byte{{0x01, 0x02}, {0x01, 0x02, 0x01}, {0x01, 0x02, 0x00, 0xff}, {0x01, 0x02, 0x03}, {0x01}, {0x02}, {0xff}, {0xff, 0xff}, {0x00}, {}}
 var kVals = [][]byte{{0xaa}, {0xaa}, {0xbb, 0xbb}, {}, {0x01, 0x02, 0x03, 0x04, 0x05, 0x06, 0x07, 0x08}, {0xaa}}
 
 // buildTx materialises one op. It returns nil when the op cannot be expressed in the current state.
